@@ -45,6 +45,8 @@ theorem split_append_sep (c : Char) (x r : Str) :
 
 def GoodNames (p : List Str) : Prop := ∀ s ∈ p, '/' ∉ s ∧ s ≠ []
 
+instance (p : List Str) : Decidable (GoodNames p) := by unfold GoodNames; exact inferInstance
+
 theorem GoodNames.tail {a : Str} {p : List Str} (h : GoodNames (a :: p)) : GoodNames p :=
   fun s hs => h s (by simp [hs])
 
@@ -446,5 +448,92 @@ theorem ssrp_resolves (reps : List Str) (c t : List Str) (gc : GoodNames c) (gt 
               cases h
               exact gst_resolves c t gc gt j' hj'0 (by omega) (by omega) hseg.symm false
             · simp at h
+
+/-! ## the name dictionary (`_setup_xpath_dictionary`) -/
+
+def named (n : Str) (c : Chain) : Bool := c.getLast?.map (·.1) == some n
+
+def upd (s : Option (Option Chain)) (c : Chain) : Option (Option Chain) :=
+  match s with
+  | none => some (some c)
+  | some _ => some none
+
+theorem lookup_append_single {β} (k k' : Str) (v : β) (d : List (Str × β)) :
+    lookup k (d ++ [(k', v)]) = match lookup k d with
+      | some x => some x
+      | none => if k = k' then some v else none := by
+  induction d with
+  | nil => simp [lookup]
+  | cons a rest ih =>
+    obtain ⟨ka, va⟩ := a
+    simp only [List.cons_append, lookup]
+    split <;> simp_all
+
+theorem lookup_map_none (k n : Str) (d : List (Str × Option Chain)) :
+    lookup k (d.map fun (k', v) => if k' = n then (k', none) else (k', v)) =
+      if k = n then (lookup k d).map (fun _ => none) else lookup k d := by
+  induction d with
+  | nil => simp [lookup]
+  | cons a rest ih =>
+    obtain ⟨ka, va⟩ := a
+    simp only [List.map_cons, lookup]
+    by_cases h1 : ka = n <;> by_cases h2 : k = ka <;> by_cases h3 : k = n <;> simp_all [lookup]
+
+theorem lookup_dictInsert (n : Str) (d : List (Str × Option Chain)) (c : Chain) :
+    lookup n (dictInsert d c) = if named n c then upd (lookup n d) c else lookup n d := by
+  unfold dictInsert named
+  cases hl : c.getLast? with
+  | none => simp
+  | some seg =>
+    obtain ⟨m, k⟩ := seg
+    simp only [Option.map_some]
+    by_cases hmn : m = n
+    · subst hmn
+      simp only [beq_self_eq_true, ↓reduceIte]
+      cases hd : lookup m d with
+      | none => simp [hd, lookup_append_single, upd]
+      | some v => simp [hd, lookup_map_none, upd]
+    · have hnm : ¬ (n = m) := fun e => hmn e.symm
+      have : (some m == some n) = false := by simp [hmn]
+      simp only [this, Bool.false_eq_true, ↓reduceIte]
+      split
+      · rw [lookup_map_none]; simp [hnm]
+      · rw [lookup_append_single]; cases lookup n d <;> simp [hnm]
+
+theorem lookup_foldl_dictInsert (n : Str) (els : List Chain) (d : List (Str × Option Chain)) :
+    lookup n (els.foldl dictInsert d) = (els.filter (named n)).foldl upd (lookup n d) := by
+  induction els generalizing d with
+  | nil => simp
+  | cons c rest ih =>
+    simp only [List.foldl_cons, ih, lookup_dictInsert, List.filter_cons]
+    split <;> simp
+
+theorem foldl_upd_some (v : Option Chain) (l : List Chain) (h : l ≠ []) : l.foldl upd (some v) = some none := by
+  induction l generalizing v with
+  | nil => contradiction
+  | cons a r ih =>
+    cases r with
+    | nil => simp [upd]
+    | cons b r' => simpa [upd] using ih none (by simp)
+
+/-- the three outcomes of looking a name up -/
+theorem lookup_setup (n : Str) (els : List Chain) :
+    lookup n (setupXpathDict els) =
+      match els.filter (named n) with
+      | [] => none
+      | [t] => some (some t)
+      | _ :: _ :: _ => some none := by
+  unfold setupXpathDict
+  rw [lookup_foldl_dictInsert]
+  cases els.filter (named n) with
+  | nil => simp [lookup]
+  | cons a r =>
+    cases r with
+    | nil => simp [lookup, upd]
+    | cons b r' =>
+      simp only [lookup, List.foldl_cons, upd]
+      cases r' with
+      | nil => simp
+      | cons x y => exact foldl_upd_some _ _ (by simp)
 
 end Pyxv.Refs
